@@ -3,12 +3,17 @@ package checks
 import (
 	"encoding/json"
 	"fmt"
+	"hash/fnv"
+	"net/http/httptest"
 	"strings"
 	"testing"
 
+	textwire "github.com/textwire/textwire/v2"
+	"github.com/textwire/textwire/v2/config"
 	"pgregory.net/rapid"
 	"verif/lib/harness"
 	"verif/lib/spec"
+	"verif/lib/tree"
 	"verif/lib/tw"
 )
 
@@ -49,10 +54,48 @@ func init() {
 	}
 }
 
+// c09Response renders the case as the page of a template directory through
+// Response, with a custom error page that itself fails or does not exist
+// (debug off): whatever fails, the call returns.
+func c09Response(c *harness.Check, cs evalCase, kind, payload string, variant uint32) string {
+	if _, err := tree.Materialise(tree.Tree{"t/page.tw": {Content: cs.Src}, "t/oops.tw": {Content: "<h1>{{ message }}</h1>"}, "t/fine.tw": {Content: "<h1>error</h1>"}}); err != nil {
+		return ""
+	}
+	failure := ""
+	pi := c.Guard(kind, payload, func() {
+		textwire.VerifReset()
+		tpl, err := textwire.NewTemplate(&config.Config{TemplateDir: "t", TemplateExt: ".tw", ErrorPagePath: []string{"oops", "nosuch", "fine", ""}[variant%4], DebugMode: variant%8 >= 6})
+		if err != nil {
+			return // a source that does not parse: nothing to render
+		}
+		w := httptest.NewRecorder()
+		rerr := tpl.Response(w, "page", cs.Data.GoMap())
+		_, serr := tpl.String("page", cs.Data.GoMap())
+		if (rerr == nil) != (serr == nil) {
+			failure = fmt.Sprintf("Response returned %v although String returns %v", rerr, serr)
+		}
+	})
+	if pi != nil {
+		return "through Response with a custom error page: panic: " + pi.Value
+	}
+	return failure
+}
+
 func c09Run(c *harness.Check, cs evalCase, kind, payload string) (Result, string) {
 	r := evalString(c, kind, payload, cs.Src, cs.Data.GoMap())
 	if r.Panic != nil {
 		return r, "panic: " + r.Panic.Value
+	}
+	// one case in 64 (by its content) also goes through Template.Response
+	if h := fnv.New32a(); !strings.Contains(cs.Src, "\x00") {
+		h.Write([]byte(cs.Src))
+		h.Write([]byte(mustJSON(cs.Data)))
+		if v := h.Sum32(); v%64 == 0 {
+			c.Class("also-through:Response+custom-error-page")
+			if f := c09Response(c, cs, kind, payload, v/64); f != "" {
+				return r, f
+			}
+		}
 	}
 	if r.IsErr() {
 		if r.Out != "" {
